@@ -235,6 +235,12 @@ func init() {
 		if k := i - ctx.N(12, 90) - ctx.N(8, 32) - 77; k >= 0 && k < 22 {
 			return ignoredKeywordCase(k)
 		}
+		if k := i - ctx.N(12, 90) - ctx.N(8, 32) - 99; k >= 0 && k < 8 {
+			return typedAllOfDefinitionCase(k)
+		}
+		if k := i - ctx.N(12, 90) - ctx.N(8, 32) - 107; k >= 0 && k < 9 {
+			return nestedSameDefCase(k)
+		}
 		return nil
 	}
 	regSem(&semSpec{id: "C03",
@@ -337,6 +343,9 @@ func init() {
 			}
 			if i < 146 {
 				return formatEnumCase(i - 136)
+			}
+			if i < 149 {
+				return refEnumCase(i - 146)
 			}
 			return nil
 		},
@@ -1765,6 +1774,22 @@ func crossPackageCase(i int) *sem.Case {
 		root.Defs = append(root.Defs, sg.Prop{Name: "Pin", S: pin})
 		root.Props = append(root.Props, sg.Prop{Name: "slug1", S: &sg.Schema{Ref: "lib.json#/$defs/Slug", Target: slug}}, sg.Prop{Name: "ownPin", S: &sg.Schema{Ref: "#/$defs/Pin", Target: pin}})
 	}
+	// a definition that holds references into the library, used alone and merged through allOf (the composed struct
+	// visits the reference nodes a second time); an inline anyOf member that holds one
+	libItem, libQty := lib.Defs[2].S, lib.Defs[0].S
+	// (a library type without a namesake in the root: a reference that loses its package qualifier cannot bind to a
+	// local type by accident)
+	libOnly := &sg.Schema{Types: []string{"object"}, Props: []sg.Prop{{Name: "serial", S: &sg.Schema{Types: []string{"string"}, MinLen: 2}}}, Required: []string{"serial"}}
+	lib.Defs = append(lib.Defs, sg.Prop{Name: "LibOnly", S: libOnly})
+	lib.Props = append(lib.Props, sg.Prop{Name: "libOnly", S: &sg.Schema{Ref: "#/$defs/LibOnly", Target: libOnly}})
+	base := &sg.Schema{Types: []string{"object"}, Props: []sg.Prop{{Name: "baseId", S: &sg.Schema{Types: []string{"integer"}}}, {Name: "device", S: &sg.Schema{Ref: "lib.json#/$defs/LibOnly", Target: libOnly}},
+		{Name: "owner", S: &sg.Schema{Ref: "lib.json#/$defs/Item", Target: libItem}}, {Name: "amount", S: &sg.Schema{Ref: "lib.json#/$defs/Qty", Target: libQty}}}, Required: []string{"baseId"}}
+	root.Defs = append(root.Defs, sg.Prop{Name: "Base", S: base})
+	root.Props = append(root.Props, sg.Prop{Name: "plainBase", S: &sg.Schema{Ref: "#/$defs/Base", Target: base}},
+		sg.Prop{Name: "composed", S: &sg.Schema{AllOf: []*sg.Schema{{Ref: "#/$defs/Base", Target: base}, {Types: []string{"object"}, Props: []sg.Prop{{Name: "note", S: &sg.Schema{Types: []string{"string"}}}}}}}},
+		sg.Prop{Name: "either", S: &sg.Schema{AnyOf: []*sg.Schema{
+			{Types: []string{"object"}, Props: []sg.Prop{{Name: "who", S: &sg.Schema{Ref: "lib.json#/$defs/Item", Target: libItem}}}, Required: []string{"who"}},
+			{Types: []string{"object"}, Props: []sg.Prop{{Name: "count", S: &sg.Schema{Types: []string{"integer"}}}}, Required: []string{"count"}}}}})
 	root.Props = append(root.Props, sg.Prop{Name: "qtys", S: &sg.Schema{Types: []string{"array"}, Items: &sg.Schema{Ref: "lib.json#/$defs/Qty", Target: lib.Defs[0].S}}})
 	libFile := batch.File{Path: "lib.json", Data: jsonx.MarshalIndent(lib.ToJSON())}
 	split := []string{"--schema-package=" + libID + "={{PKG}}/lib", "--schema-output=" + libID + "={{OUT}}/lib/gen.go"}
@@ -2045,6 +2070,11 @@ func strataForC01(ctx *Ctx) []*sem.Case {
 	add(3, allOfDefaultCase)
 	add(6, titledNestedArrayCase)
 	add(22, ignoredKeywordCase)
+	add(3, refEnumCase)
+	add(12, caseDefCompositionCase)
+	add(5, draftNumericCase)
+	add(8, typedAllOfDefinitionCase)
+	add(9, nestedSameDefCase)
 	add(12, objectDefaultCase)
 	add(12, nullableDefCase)
 	add(16, nestedOverlapCase)
@@ -2670,5 +2700,177 @@ func ignoredKeywordCase(i int) *sem.Case {
 		c.Docs = append(c.Docs, docgen.Doc{V: wrap(v), Class: "required", Label: "implemented-keyword-broken"})
 	}
 	c.Docs = append(c.Docs, docgen.Doc{V: wrap(jsonx.Obj{{K: "name", V: jsonx.N(5)}, {K: "billing_address", V: "x"}}), Class: "type", Label: "implemented-keyword-broken"})
+	return c
+}
+
+// refEnumCase: an enum written next to a $ref (an enum narrowing a referenced string type; legal since 2019-09) as a
+// property, as the items of a named and of an inline array, and as the values of a named map. The members satisfy
+// the referenced type, the non-members are rejected under either reading of the siblings: verdicts are stated.
+func refEnumCase(i int) *sem.Case {
+	name := &sg.Schema{Types: []string{"string"}, MinLen: 1}
+	members := [][]any{{"red", "green", "blue"}, {"a"}, {"x", "y"}}[i%3]
+	narrowed := func() *sg.Schema { return &sg.Schema{Ref: "#/$defs/Name", Target: name, HasEnum: true, Enum: members} }
+	accents := &sg.Schema{Types: []string{"array"}, Items: narrowed()}
+	byRole := &sg.Schema{Types: []string{"object"}, AddProps: narrowed()}
+	root := &sg.Schema{Types: []string{"object"}, Defs: []sg.Prop{{Name: "Name", S: name}, {Name: "Accents", S: accents}, {Name: "ByRole", S: byRole}},
+		Props: []sg.Prop{{Name: "primary", S: narrowed()}, {Name: "accents", S: &sg.Schema{Ref: "#/$defs/Accents", Target: accents}}, {Name: "byRole", S: &sg.Schema{Ref: "#/$defs/ByRole", Target: byRole}},
+			{Name: "inlineList", S: &sg.Schema{Types: []string{"array"}, Items: narrowed()}}, {Name: "plain", S: &sg.Schema{Ref: "#/$defs/Name", Target: name}}}}
+	c := &sem.Case{Root: root, Sig: fmt.Sprintf("ref-enum/%d", i%3), NoAuto: true}
+	m0 := members[0].(string)
+	add := func(o jsonx.Obj, st string) { c.Docs = append(c.Docs, docgen.Doc{V: o, Class: "enum", Label: "ref-enum", Stated: st}) }
+	for _, v := range []struct {
+		val string
+		st  string
+	}{{m0, "accept"}, {"purple", "reject"}, {"", "reject"}} {
+		add(jsonx.Obj{{K: "primary", V: v.val}}, v.st)
+		add(jsonx.Obj{{K: "accents", V: []any{m0, v.val}}}, v.st)
+		add(jsonx.Obj{{K: "byRole", V: jsonx.Obj{{K: "warn", V: v.val}}}}, v.st)
+		add(jsonx.Obj{{K: "inlineList", V: []any{v.val}}}, v.st)
+	}
+	add(jsonx.Obj{{K: "plain", V: "purple"}, {K: "primary", V: m0}}, "accept")
+	return c
+}
+
+// caseDefCompositionCase: definitions whose names differ in letter case only (item / Item / ITEM, each with members
+// and required keys of its own) referred to through allOf / anyOf members (the path that resolves references ahead
+// of the merge), in every order: each property keeps the schema of the definition it names.
+func caseDefCompositionCase(i int) *sem.Case {
+	names := [][]string{{"item", "Item", "ITEM"}, {"userId", "userid", "UserID"}, {"aB", "Ab", "ab"}}[i%3]
+	order := [][]int{{0, 1, 2}, {2, 1, 0}, {1, 0, 2}, {1, 2, 0}}[(i/3)%4]
+	root := &sg.Schema{Types: []string{"object"}}
+	c := &sem.Case{Root: root, Sig: fmt.Sprintf("case-def-composition/%d", i%12), NoAuto: true}
+	defs := make([]*sg.Schema, 3)
+	for k := range names {
+		key := fmt.Sprintf("k%d", k)
+		defs[k] = &sg.Schema{Types: []string{"object"}, Props: []sg.Prop{{Name: key, S: &sg.Schema{Types: []string{"string"}, MinLen: 1}}, {Name: "n", S: &sg.Schema{Types: []string{"integer"}}}}, Required: []string{key}}
+		root.Defs = append(root.Defs, sg.Prop{Name: names[k], S: defs[k]})
+	}
+	for pos, k := range order {
+		ref := &sg.Schema{Ref: "#/$defs/" + names[k], Target: defs[k]}
+		var comp *sg.Schema
+		switch (pos + i) % 3 {
+		case 0:
+			comp = &sg.Schema{AllOf: []*sg.Schema{ref}}
+		case 1:
+			comp = &sg.Schema{AllOf: []*sg.Schema{ref, {Types: []string{"object"}, Props: []sg.Prop{{Name: "extra", S: &sg.Schema{Types: []string{"boolean"}}}}}}}
+		case 2:
+			comp = &sg.Schema{AnyOf: []*sg.Schema{ref, {Types: []string{"object"}, Props: []sg.Prop{{Name: "other", S: &sg.Schema{Types: []string{"string"}}}}, Required: []string{"other"}}}}
+		}
+		pn := fmt.Sprintf("p%d", pos)
+		root.Props = append(root.Props, sg.Prop{Name: pn, S: comp})
+		own := fmt.Sprintf("k%d", k)
+		c.Docs = append(c.Docs, docgen.Doc{V: jsonx.Obj{{K: pn, V: jsonx.Obj{{K: own, V: "v"}, {K: "n", V: jsonx.N(3)}}}}, Class: "collision", Label: "own-schema"})
+		if (pos+i)%3 != 2 {
+			c.Docs = append(c.Docs, docgen.Doc{V: jsonx.Obj{{K: pn, V: jsonx.Obj{{K: fmt.Sprintf("k%d", (k+1)%3), V: "v"}}}}, Class: "collision", Label: "other-schema"},
+				docgen.Doc{V: jsonx.Obj{{K: pn, V: jsonx.Obj{}}}, Class: "collision", Label: "empty"})
+		}
+	}
+	return c
+}
+
+// draftNumericCase: numeric schemas that state their own "$schema" (draft-04, -06, -07, 2019-09, 2020-12) - as the root
+// of a referenced file and as a definition that embeds the keyword - with exclusive bounds in the numeric and in the
+// boolean form: the declared draft does not change what a stated bound means.
+func draftNumericCase(i int) *sem.Case {
+	drafts := []string{"http://json-schema.org/draft-04/schema#", "http://json-schema.org/draft-06/schema#", "http://json-schema.org/draft-07/schema#", "https://json-schema.org/draft/2019-09/schema", "https://json-schema.org/draft/2020-12/schema"}
+	d := drafts[i%len(drafts)]
+	port := &sg.Schema{Version: d, Types: []string{"integer"}, ExMin: 0.0, Max: sg.Fp(65535)}
+	ratio := &sg.Schema{Version: d, Types: []string{"number"}, Min: sg.Fp(0), ExMax: 1.0}
+	percent := &sg.Schema{Version: d, Types: []string{"integer"}, Min: sg.Fp(0), ExMax: 101.0}
+	legacy := &sg.Schema{Version: d, Types: []string{"number"}, Min: sg.Fp(1), ExMin: true, Max: sg.Fp(9), ExMax: false}
+	root := &sg.Schema{Version: drafts[(i+2)%len(drafts)], Types: []string{"object"}, Defs: []sg.Prop{{Name: "Percent", S: percent}, {Name: "Legacy", S: legacy}}, Props: []sg.Prop{
+		{Name: "port", S: &sg.Schema{Ref: "port.json", Target: port}}, {Name: "load", S: &sg.Schema{Ref: "ratio.json", Target: ratio}},
+		{Name: "cpu", S: &sg.Schema{Ref: "#/$defs/Percent", Target: percent}}, {Name: "old", S: &sg.Schema{Ref: "#/$defs/Legacy", Target: legacy}},
+		{Name: "weight", S: &sg.Schema{Types: []string{"number"}, ExMin: 0.0, Max: sg.Fp(10)}}}}
+	c := &sem.Case{Root: root, Sig: fmt.Sprintf("draft-numeric/%d", i%len(drafts)), NoAuto: true,
+		Extra: []batch.File{{Path: "port.json", Data: jsonx.MarshalIndent(port.ToJSON())}, {Path: "ratio.json", Data: jsonx.MarshalIndent(ratio.ToJSON())}}}
+	for _, kv := range []struct {
+		k    string
+		vals []string
+	}{{"port", []string{"0", "1", "65535", "65536", "-3"}}, {"load", []string{"-0.5", "0", "0.5", "1", "7.5"}}, {"cpu", []string{"-1", "0", "100", "101", "4000"}}, {"old", []string{"1", "1.5", "9", "9.5"}}, {"weight", []string{"0", "0.5", "10", "10.5"}}} {
+		for _, v := range kv.vals {
+			c.Docs = append(c.Docs, docgen.Doc{V: jsonx.Obj{{K: kv.k, V: jsonx.Num(v)}}, Class: "bound", Label: "draft-numeric"})
+		}
+	}
+	return c
+}
+
+// typedAllOfDefinitionCase: definitions that state "type":"object" and consist of an allOf (one or two members with
+// validators, inline and by reference), referred to from a property, from array items and from another definition:
+// one declaration, one unmarshaler, the conjunction enforced.
+func typedAllOfDefinitionCase(i int) *sem.Case {
+	m1 := func() *sg.Schema {
+		return &sg.Schema{Types: []string{"object"}, Props: []sg.Prop{{Name: "id", S: &sg.Schema{Types: []string{"integer"}, Min: sg.Fp(1)}}}, Required: []string{"id"}}
+	}
+	m2 := func() *sg.Schema {
+		return &sg.Schema{Types: []string{"object"}, Props: []sg.Prop{{Name: "label", S: &sg.Schema{Types: []string{"string"}, MinLen: 2}}}}
+	}
+	base := m1()
+	var members []*sg.Schema
+	switch i % 4 {
+	case 0:
+		members = []*sg.Schema{m1()}
+	case 1:
+		members = []*sg.Schema{m1(), m2()}
+	case 2:
+		members = []*sg.Schema{{Ref: "#/$defs/Base", Target: base}, m2()}
+	case 3:
+		members = []*sg.Schema{{Ref: "#/$defs/Base", Target: base}}
+	}
+	device := &sg.Schema{Types: []string{"object"}, AllOf: members}
+	root := &sg.Schema{Types: []string{"object"}, Defs: []sg.Prop{{Name: "Base", S: base}, {Name: "Device", S: device}},
+		Props: []sg.Prop{{Name: "dev", S: &sg.Schema{Ref: "#/$defs/Device", Target: device}}, {Name: "devs", S: &sg.Schema{Types: []string{"array"}, Items: &sg.Schema{Ref: "#/$defs/Device", Target: device}}}, {Name: "again", S: &sg.Schema{Ref: "#/$defs/Device", Target: device}}}}
+	if (i/4)%2 == 1 {
+		holder := &sg.Schema{Types: []string{"object"}, Props: []sg.Prop{{Name: "inner", S: &sg.Schema{Ref: "#/$defs/Device", Target: device}}}}
+		root.Defs = append(root.Defs, sg.Prop{Name: "Holder", S: holder})
+		root.Props = append(root.Props, sg.Prop{Name: "holder", S: &sg.Schema{Ref: "#/$defs/Holder", Target: holder}})
+	}
+	c := &sem.Case{Root: root, Sig: fmt.Sprintf("typed-allof-definition/%d", i%8), NoAuto: true}
+	for _, d := range []jsonx.Obj{{{K: "id", V: jsonx.N(1)}}, {{K: "id", V: jsonx.N(0)}}, {}, {{K: "id", V: jsonx.N(2)}, {K: "label", V: "ab"}}, {{K: "id", V: jsonx.N(2)}, {K: "label", V: "a"}}, {{K: "label", V: "ab"}}} {
+		c.Docs = append(c.Docs, docgen.Doc{V: jsonx.Obj{{K: "dev", V: d}}, Class: "required", Label: "typed-allof-definition"}, docgen.Doc{V: jsonx.Obj{{K: "devs", V: []any{d}}}, Class: "required", Label: "typed-allof-definition"})
+		if root.Prop("holder") != nil {
+			c.Docs = append(c.Docs, docgen.Doc{V: jsonx.Obj{{K: "holder", V: jsonx.Obj{{K: "inner", V: d}}}}, Class: "required", Label: "typed-allof-definition"})
+		}
+	}
+	return c
+}
+
+// nestedSameDefCase: a composition that lists definition A next to a member whose own property is again a
+// composition over A (allOf[$ref Address, $ref Customer] with Customer.billing = allOf[$ref Address]; also anyOf
+// outside, inline members, two levels): nothing recurs here - the inner property keeps every rule of A.
+func nestedSameDefCase(i int) *sem.Case {
+	address := &sg.Schema{Types: []string{"object"}, Props: []sg.Prop{{Name: "street", S: &sg.Schema{Types: []string{"string"}, MinLen: 3}}, {Name: "zip", S: &sg.Schema{Types: []string{"string"}}}}, Required: []string{"zip"}}
+	refA := func() *sg.Schema { return &sg.Schema{Ref: "#/$defs/Address", Target: address} }
+	var billing *sg.Schema
+	switch i % 3 {
+	case 0:
+		billing = &sg.Schema{AllOf: []*sg.Schema{refA()}}
+	case 1:
+		billing = &sg.Schema{AllOf: []*sg.Schema{refA(), {Types: []string{"object"}, Props: []sg.Prop{{Name: "vat", S: &sg.Schema{Types: []string{"string"}}}}}}}
+	case 2:
+		billing = &sg.Schema{AnyOf: []*sg.Schema{refA(), {Types: []string{"object"}, Props: []sg.Prop{{Name: "pobox", S: &sg.Schema{Types: []string{"integer"}}}}, Required: []string{"pobox"}}}}
+	}
+	customer := &sg.Schema{Types: []string{"object"}, Props: []sg.Prop{{Name: "name", S: &sg.Schema{Types: []string{"string"}}}, {Name: "billing", S: billing}}}
+	root := &sg.Schema{Types: []string{"object"}, Defs: []sg.Prop{{Name: "Address", S: address}, {Name: "Customer", S: customer}}}
+	var members []*sg.Schema
+	switch (i / 3) % 3 {
+	case 0:
+		members = []*sg.Schema{refA(), {Ref: "#/$defs/Customer", Target: customer}}
+	case 1:
+		members = []*sg.Schema{{Ref: "#/$defs/Customer", Target: customer}, refA()}
+	case 2:
+		members = []*sg.Schema{refA(), {Types: []string{"object"}, Props: []sg.Prop{{Name: "billing", S: billing}, {Name: "note", S: &sg.Schema{Types: []string{"string"}}}}}}
+	}
+	root.Props = []sg.Prop{{Name: "shipment", S: &sg.Schema{AllOf: members}}, {Name: "customer", S: &sg.Schema{Ref: "#/$defs/Customer", Target: customer}}}
+	c := &sem.Case{Root: root, Sig: fmt.Sprintf("nested-same-def/%d", i%9), NoAuto: true}
+	okAddr := jsonx.Obj{{K: "street", V: "Main St"}, {K: "zip", V: "0150"}}
+	for _, b := range []any{okAddr, jsonx.Obj{{K: "street", V: "M"}, {K: "zip", V: "0150"}}, jsonx.Obj{{K: "street", V: "Main St"}}, jsonx.N(7), jsonx.Obj{{K: "zip", V: jsonx.N(5)}}} {
+		ship := append(append(jsonx.Obj{}, okAddr...), jsonx.KV{K: "billing", V: b})
+		cls := "typefault"
+		if _, isObj := b.(jsonx.Obj); isObj {
+			cls = "required"
+		}
+		c.Docs = append(c.Docs, docgen.Doc{V: jsonx.Obj{{K: "shipment", V: ship}}, Class: cls, Label: "nested-same-def"}, docgen.Doc{V: jsonx.Obj{{K: "customer", V: jsonx.Obj{{K: "billing", V: b}}}}, Class: cls, Label: "nested-same-def"})
+	}
 	return c
 }
